@@ -2,7 +2,9 @@
 # Re-run every kept seeded change against the checks as they stand now, several at a time: each in its own scratch
 # worktree handed to the check through PYTHONPATH (tools/try_seeded.sh in its default mode, which never touches
 # /repo's working tree).  Writes seeded/<id>/recheck.txt; PAR=<n> runs n at a time; ONLY="C05 C06" limits the
-# properties.  The pass to the letter of the brief (patch applied to /repo itself) is tools/final_repo_pass.sh.
+# properties.  Checks regenerate lean/KatdalModel/Generated/*.lean from the tree they are pointed at, so two
+# overlapping runs on DIFFERENTLY patched trees that both touch a generated table (flag names, error maps) can
+# break each other's build (exit 2, CHECK-BROKEN): re-run those singly.  The pass to the letter of the brief (patch applied to /repo itself) is tools/final_repo_pass.sh.
 cd /verif || exit 2
 one() {
   d=seeded/$1
